@@ -334,6 +334,15 @@ def main():
                     conn.cursor().execute(sql)
                 except Exception as e:  # noqa: BLE001
                     log[-1] += f"   -- {type(e).__name__}"
+            if ck.rng.random() < 0.35:
+                # statements fakesnow answers without doing anything (tags, clustering, session variables): they must not touch metadata either
+                nz = ck.rng.choice(["set c09_v = 1", "create tag c09_tag", "alter table db1.s1.t1 set tag c09_tag = 'x'", "alter table db1.s1.t2 cluster by (a)",
+                                    "alter table db1.s2.t1 modify column a set tag c09_tag = 'y'", "unset c09_v"])
+                log.append(nz + "   -- no-op")
+                try:
+                    conn.cursor().execute(nz)
+                except Exception:  # noqa: BLE001
+                    log[-1] += " (raised)"
             try:
                 ob, cross = observe({"DB1": conn, "DB2": conn2})
             except Exception as e:  # noqa: BLE001
